@@ -19,10 +19,18 @@ import (
 
 // SDP returns a session description for codec (± AAC audio) whose parameter
 // sets are the repository's real captures, so every converter starts.
-func SDP(codec esgen.Codec, audio bool) string {
+func SDP(codec esgen.Codec, audio bool) string { return SDPWith(codec, audio, true) }
+
+// SDPWith is SDP with or without the sprop parameter sets in the video fmtp line
+// (without them the parameter sets have to arrive in band, as many cameras do).
+func SDPWith(codec esgen.Codec, audio, sprop bool) string {
 	s := "v=0\r\no=- 0 0 IN IP4 127.0.0.1\r\ns=verif\r\nc=IN IP4 127.0.0.1\r\nt=0 0\r\n"
 	b64 := base64.StdEncoding.EncodeToString
-	if codec == esgen.H264 {
+	if !sprop && codec == esgen.H264 {
+		s += "m=video 0 RTP/AVP 96\r\na=rtpmap:96 H264/90000\r\na=fmtp:96 packetization-mode=1\r\na=control:streamid=0\r\n"
+	} else if !sprop {
+		s += "m=video 0 RTP/AVP 96\r\na=rtpmap:96 H265/90000\r\na=control:streamid=0\r\n"
+	} else if codec == esgen.H264 {
 		s += "m=video 0 RTP/AVP 96\r\na=rtpmap:96 H264/90000\r\n" +
 			"a=fmtp:96 packetization-mode=1; sprop-parameter-sets=" + b64(esgen.RealH264SPS) + "," + b64(esgen.RealH264PPS) + "; profile-level-id=64001F\r\n" +
 			"a=control:streamid=0\r\n"
